@@ -64,6 +64,7 @@ def generate(rng, tier):
     # corpus: the confirmed defect (bare deny rule with a POSIX class grants access)
     cases.append({"default": ["^/.*", "!^%s/log/secret/[[:alpha:]]+$" % base], "users": {}, "user": "alice", "req": "log/secret/abc", "rel": False})
     cases.append({"default": ["^%s/log/app/[[:alnum:]]+\\.log$" % base], "users": {}, "user": "alice", "req": "log/app/b1.log", "rel": False})
+    cases.append({"default": ["^/.*"], "users": {"alice": []}, "user": "alice", "req": "log/app/b1.log", "rel": False})
     n = 400 if tier == "quick" else 15000
     dirs = {"log/app": ["log/app/a.log", "log/app/b1.log", "other/dir_to_app/a.log", "other/link_a"],
             "log/secret": ["log/secret/abc", "log/secret/key.pem", "log/app/link_secret", "log/app/link_dir/abc", "log/app/link_link", "other/abs_link"]}
@@ -87,6 +88,8 @@ def generate(rng, tier):
             users["alice"] = gen_rules(rng, base)
         if rng.random() < 0.1:
             users["bob"] = gen_rules(rng, base)
+        if rng.random() < 0.08:
+            users["alice"] = []          # an explicitly empty per-user list: nothing matches, nothing is served
         cases.append({"default": gen_rules(rng, base), "users": users, "user": rng.choice(["alice", "alice", "carol"]),
                       "req": rng.choice(reqs), "rel": rng.random() < 0.15})
     return cases
@@ -119,7 +122,7 @@ def judge(cases, obs, tier):
         if o is None or "panic" in o:
             oracle[i] = "implementation failed: %s" % (o,)
             continue
-        tab = o["tab"]
+        tab = o.get("tab", {})     # absent when user.New refuses the user (empty rule set)
         # independent oracle: resolved, regular, last matching rule is an allow; an uncompilable applicable rule denies
         allowed = False
         if c["_resolved"] is not None and c["_regular"] and c["_rules"]:
